@@ -54,7 +54,10 @@ func lineID(p []byte) int {
 
 type dest struct{}
 
-func (dest) Write(p []byte) (int, error) { emit(ev{"a": "Dest", "l": -999, "s": lineID(p)}); return len(p), nil }
+func (dest) Write(p []byte) (int, error) {
+	emit(ev{"a": "Dest", "l": -999, "s": lineID(p)})
+	return len(p), nil
+}
 func (dest) WriteLevel(l zerolog.Level, p []byte) (int, error) {
 	emit(ev{"a": "Dest", "l": int(l), "s": lineID(p)})
 	return len(p), nil
